@@ -69,6 +69,8 @@ def conformance(ctx, f, mode, n, seed, name):
 
 def run(ctx):
     f = F[ctx.pid]
+    if 'custom' in f:
+        return f['custom'](ctx)
     build_harness(ctx)
     for spec, cfg in (f['mc_quick'] if ctx.quick else f['mc_thorough']):
         run_mc(ctx, spec, cfg, workers=8 if ctx.quick else 16, timeout=300 if ctx.quick else 3000)
@@ -84,9 +86,44 @@ def run(ctx):
 
 def replay(ctx, path):
     f = F[ctx.pid]
+    if 'custom_replay' in f:
+        return f['custom_replay'](ctx, path)
     build_harness(ctx)
     ei = json.load(open(f'{path}/exec.json'))
     mode = ei.get('mode', 'c')
     out, st = run_harness(ctx, f['driver'], 'replay', mode=mode, profile='replay', replay=f'{path}/exec.json')
     rej, _ = validate(ctx, f['tv'], f'{out}/trace.ndjson', st, ei.get('prop', f['prop']), 'tv_replay', parallel=1)
     handle_rejections(ctx, f, rej, st, mode, 'replay')
+
+
+# ---------------------------------------------------------------------------------------------------------------------
+# C19 Callable: exhaustive case enumeration executed by the real code, each case checked by TLC against the
+# TLA+ transcription of the rules (CallableTV.tla)
+def run_callable(ctx):
+    build_harness(ctx)
+    out, st = run_harness(ctx, 'callable', 'enum', tier=ctx.tier, seed=ctx.seed)
+    trace = f'{out}/trace.ndjson'
+    n, bad = tv_cases(ctx, 'CallableTV', trace, 'tv_cases')
+    ctx.evaluations += n
+    ctx.traces_ok += n - len(bad)
+    ctx.distinct_nontrivial += n
+    lines = open(trace).read().splitlines()
+    ctx.samples += [json.loads(lines[i]) for i in (0, len(lines) // 3, 2 * len(lines) // 3) if i < len(lines)]
+    ctx.conf.append(dict(mode='enumeration', cases=n, disagreeing=len(bad), exhaustive=(ctx.tier == 'thorough')))
+    classes = {}
+    for b in bad:
+        e = json.loads(lines[b - 1])
+        kind = 'untyped-nil-argument' if 'nil' in e.get('args', []) else 'untyped-nil-target' if 'unil' in e.get('targets', []) + [e.get('starget')] else 'other'
+        sig = f'case:{e["u"]}:{e["out"]}:{kind}'
+        classes.setdefault(sig, []).append(e)
+    for sig, es in classes.items():
+        report(ctx, sig, f'{len(es)} enumerated case(s) where the real Call disagrees with the specification; first: {json.dumps(es[0])[:400]}',
+               {'cases.ndjson': '\n'.join(json.dumps(e) for e in es[:200]) + '\n', 'exec.json': dict(driver='callable', spec='CallableTV')})
+
+
+def replay_callable(ctx, path):
+    """re-run the whole enumeration: a stored case is identified by its content, the real code is re-executed"""
+    run_callable(ctx)
+
+
+F['C19'] = dict(custom=run_callable, custom_replay=replay_callable)
